@@ -117,3 +117,172 @@ Section Modes.
     - cbn. split; reflexivity.
   Qed.
 End Modes.
+
+(* ====================================================================== *)
+(* Round 2: caching, restored Body, transformer, output writer, callback  *)
+(* ====================================================================== *)
+
+Definition view (tf : option transformer) (d : bytes) : option bytes :=
+  match tf with None => Some d | Some f => f d end.
+
+Definition auto_cfg (tf : option transformer) : cfg :=
+  {| c_disable_auto := false; c_save := false; c_cap := None; c_callback := false;
+     c_result := false; c_tf := tf |}.
+
+(* auto-read of a clean body: the cache holds the (transformed) body, Body is a fresh reader
+   over the cache, no error *)
+Theorem auto_read_caches tf code d b :
+  (199 < code)%Z -> view tf d = Some b ->
+  finish (auto_cfg tf) code {| rd_rem := d; rd_end := BEof |} =
+    {| a_state := {| s_err := false; s_cache := Some b; s_body := mem_reader b |};
+       a_out := []; a_callbacks := []; a_unmarshal := None |}.
+Proof.
+  intros Hc Hv. unfold finish, auto_cfg. cbn [c_disable_auto c_save c_result c_tf negb andb].
+  apply Z.ltb_lt in Hc. rewrite Hc.
+  unfold to_bytes_t. cbn [s_err s_cache s_body read_all rd_rem rd_end bend_eqb].
+  unfold view in Hv. destruct tf as [f|]; [rewrite Hv|inversion Hv; subst]; reflexivity.
+Qed.
+
+(* a failing transformer fails the call and leaves nothing cached *)
+Theorem transformer_failure_surfaces f code d :
+  (199 < code)%Z -> f d = None ->
+  let r := finish (auto_cfg (Some f)) code {| rd_rem := d; rd_end := BEof |} in
+  s_err (a_state r) = true /\ s_cache (a_state r) = None.
+Proof.
+  intros Hc Hv. unfold finish, auto_cfg. cbn [c_disable_auto c_save c_result c_tf negb andb].
+  apply Z.ltb_lt in Hc. rewrite Hc.
+  unfold to_bytes_t. cbn [s_err s_cache s_body read_all rd_rem rd_end bend_eqb]. rewrite Hv.
+  cbn. split; reflexivity.
+Qed.
+
+Definition op_sees (b : bytes) (o : op_out) : Prop :=
+  match o with
+  | OutBytes x => x = Some b
+  | OutToBytes x ok => x = b /\ ok = true
+  | OutUnmarshal i => i = Some b
+  | OutRead _ _ => True
+  end.
+
+Fixpoint reads_of (l : list op_out) : bytes :=
+  match l with
+  | [] => []
+  | OutRead d _ :: r => d ++ reads_of r
+  | _ :: r => reads_of r
+  end.
+
+(* Once the body is cached: for ANY sequence of Bytes / String / ToBytes / ToString /
+   UnmarshalJson / Read loops with any buffer sizes, any number of times, every view of the
+   body is the cached bytes (also the bytes handed to the unmarshaller), and what the Read
+   loops return, concatenated, is a prefix of what Body held. *)
+Theorem cached_ops_stable tf ops : forall s b,
+  s_err s = false -> s_cache s = Some b ->
+  Forall (op_sees b) (run_ops tf ops s) /\
+  exists t, rd_rem (s_body s) = reads_of (run_ops tf ops s) ++ t.
+Proof.
+  induction ops as [|o ops IH]; intros s b He Hc.
+  - split; [constructor|]. exists (rd_rem (s_body s)). reflexivity.
+  - destruct o; cbn [run_ops].
+    + destruct (IH s b He Hc) as [F [t Ht]]. split; [constructor; [exact Hc|exact F]|].
+      exists t. exact Ht.
+    + unfold to_bytes_t. rewrite He, Hc. destruct (IH s b He Hc) as [F [t Ht]].
+      split; [constructor; [split; reflexivity|exact F]|]. exists t. exact Ht.
+    + destruct (drain sizes (s_body s)) as [[d e] rd'] eqn:E.
+      destruct (IH {| s_err := s_err s; s_cache := s_cache s; s_body := rd' |} b He Hc) as [F [t Ht]].
+      split; [constructor; [exact I|exact F]|].
+      cbn [reads_of]. cbn [s_body] in Ht.
+      assert (G : forall sz r d0 e0 r0, drain sz r = (d0, e0, r0) -> rd_rem r = d0 ++ rd_rem r0).
+      { clear. induction sz as [|n ns IHs]; intros [rem en] d0 e0 r0 H; cbn [drain] in H.
+        - inversion H; subst. reflexivity.
+        - unfold rd_read in H. cbn [rd_rem rd_end] in *. destruct rem as [|x rem'].
+          + inversion H; subst. reflexivity.
+          + destruct (drain ns {| rd_rem := skipn n (x :: rem'); rd_end := en |}) as [[d1 e1] r1] eqn:E1.
+            inversion H; subst. rewrite <- app_assoc, <- (IHs _ _ _ _ E1). cbn [rd_rem].
+            now rewrite firstn_skipn. }
+      exists t. rewrite (G _ _ _ _ _ E), Ht. now rewrite app_assoc.
+    + unfold to_bytes_t. rewrite He, Hc. destruct (IH s b He Hc) as [F [t Ht]].
+      split; [constructor; [reflexivity|exact F]|]. exists t. exact Ht.
+Qed.
+
+(* ... and a Read loop that is long enough returns all of it, exactly once: a second loop
+   gets io.EOF and nothing else *)
+Theorem restored_body_read_once tf b sizes1 sizes2 :
+  positive_sizes sizes1 -> length b < length sizes1 -> sizes2 <> [] ->
+  run_ops tf [OpRead sizes1; OpRead sizes2; OpToBytes]
+    {| s_err := false; s_cache := Some b; s_body := mem_reader b |} =
+  [OutRead b (Some BEof); OutRead [] (Some BEof); OutToBytes b true].
+Proof.
+  intros Hp Hl Hn. cbn [run_ops s_body s_err s_cache]. unfold mem_reader.
+  rewrite drain_all; [|assumption|cbn [rd_rem]; assumption].
+  cbn [exhausted rd_rem rd_end]. destruct sizes2 as [|n ns]; [contradiction|]. reflexivity.
+Qed.
+
+(* DisableAutoReadResponse, a manual Read loop of any length, then ToBytes: together they
+   deliver the body exactly once (ToBytes returns what the loop had not read yet) *)
+Theorem manual_reads_then_tobytes d sizes :
+  exists d1 e d2,
+    run_ops None [OpRead sizes; OpToBytes]
+      {| s_err := false; s_cache := None; s_body := {| rd_rem := d; rd_end := BEof |} |} =
+    [OutRead d1 e; OutToBytes d2 true] /\ d1 ++ d2 = d.
+Proof.
+  cbn [run_ops s_body s_err s_cache].
+  destruct (drain sizes {| rd_rem := d; rd_end := BEof |}) as [[d1 e] rd'] eqn:E.
+  assert (G : forall sz r d0 e0 r0, drain sz r = (d0, e0, r0) -> rd_rem r = d0 ++ rd_rem r0 /\ rd_end r0 = rd_end r).
+  { clear. induction sz as [|n ns IHs]; intros [rem en] d0 e0 r0 H; cbn [drain] in H.
+    - inversion H; subst. split; reflexivity.
+    - unfold rd_read in H. cbn [rd_rem rd_end] in *. destruct rem as [|x rem'].
+      + inversion H; subst. split; reflexivity.
+      + destruct (drain ns {| rd_rem := skipn n (x :: rem'); rd_end := en |}) as [[d1 e1] r1] eqn:E1.
+        inversion H; subst. destruct (IHs _ _ _ _ E1) as [A B]. cbn [rd_rem rd_end] in *.
+        split; [|exact B]. rewrite <- app_assoc, <- A. now rewrite firstn_skipn. }
+  destruct (G _ _ _ _ _ E) as [A B]. cbn [rd_rem rd_end] in A, B.
+  unfold to_bytes_t. cbn [s_err s_cache s_body read_all]. rewrite B. cbn [bend_eqb].
+  exists d1, e, (rd_rem rd'). split; [reflexivity|]. symmetry. exact A.
+Qed.
+
+Definition save_cfg (cap : option nat) (cb : bool) : cfg :=
+  {| c_disable_auto := false; c_save := true; c_cap := cap; c_callback := cb;
+     c_result := false; c_tf := None |}.
+
+(* SetOutput / SetOutputFile with a writer that may fail after accepting some bytes: the
+   writer receives a prefix of the body; if the call reports no error it received ALL of it
+   (no silent truncation); a writer that cannot take everything makes the call fail; the
+   download callback reports the full size once *)
+Theorem download_no_silent_truncation code d cap cb :
+  let r := finish (save_cfg cap cb) code {| rd_rem := d; rd_end := BEof |} in
+  (exists t, d = a_out r ++ t) /\
+  (s_err (a_state r) = false -> a_out r = d) /\
+  (match cap with Some n => n < length d | None => False end -> s_err (a_state r) = true) /\
+  (cap = None -> cb = true -> d <> [] -> a_callbacks r = [length d]) /\
+  s_cache (a_state r) = None.
+Proof.
+  unfold finish, save_cfg. cbn [c_disable_auto c_save c_result c_tf c_cap c_callback negb andb s_cache s_err s_body].
+  unfold copy_capped. cbn [rd_rem rd_end bend_eqb].
+  destruct cap as [n|].
+  - destruct (Nat.leb_spec (length d) n) as [L|L]; cbn [a_out a_state s_err s_cache a_callbacks orb negb].
+    + repeat split; try reflexivity; try (exists []; now rewrite app_nil_r); try lia; discriminate.
+    + repeat split; try reflexivity; try discriminate.
+      exists (skipn n d). now rewrite firstn_skipn.
+  - cbn [a_out a_state s_err s_cache a_callbacks orb negb].
+    repeat split; try reflexivity; try (exists []; now rewrite app_nil_r); try contradiction.
+    intros _ -> Hd. destruct d; [contradiction|reflexivity].
+Qed.
+
+(* a body stream that fails: SetOutput reports it *)
+Theorem download_source_failure_surfaces code d cb :
+  s_err (a_state (finish (save_cfg None cb) code {| rd_rem := d; rd_end := BFail |})) = true.
+Proof. reflexivity. Qed.
+
+(* SetSuccessResult with SetOutput: the unmarshaller gets the body, the writer gets the same
+   bytes from the cache *)
+Theorem result_then_download code d :
+  success_state code = true -> code <> 204%Z ->
+  let c := {| c_disable_auto := false; c_save := true; c_cap := None; c_callback := false;
+              c_result := true; c_tf := None |} in
+  let r := finish c code {| rd_rem := d; rd_end := BEof |} in
+  a_unmarshal r = Some d /\ a_out r = d /\ s_cache (a_state r) = Some d /\ s_err (a_state r) = false.
+Proof.
+  intros Hs Hn. cbn [finish c_disable_auto c_save c_result c_tf c_cap c_callback negb andb]. unfold finish.
+  cbn [c_disable_auto c_save c_result c_tf c_cap c_callback negb andb]. rewrite Hs.
+  destruct (Z.eqb_spec code 204); [contradiction|]. cbn [negb andb].
+  unfold to_bytes_t. cbn. repeat split; reflexivity.
+Qed.
